@@ -116,8 +116,10 @@ func (vm *VM) concSchedPoint(what string) {
 		return
 	}
 	if vm.co == co {
-		// inside the second thread: hand control back to the main thread here?
-		if vm.chooseLogged(2) == 1 {
+		// inside the second thread: hand control back to the main thread here?  (counts as a
+		// switch too: the bound is on the total number of context switches)
+		if P.concBudget > 0 && vm.chooseLogged(2) == 1 {
+			P.concBudget--
 			co.ready, co.what = func() bool { return true }, "preempted at "+what
 			co.yield <- coroMsg{}
 			if !<-co.resume {
